@@ -15,7 +15,7 @@ From Coq Require Import String Ascii.
 From Coq Require Import List Arith Bool.
 Require Import TT.Model.Str TT.Model.TypeParse TT.Spec.TsLex TT.Spec.TsModule TT.Spec.TsObs.
 Require Import TT.Spec.C10Shape TT.Model.C10Zod TT.Spec.C10Check TT.Proofs.C10Proofs TT.Proofs.C10Items.
-Require Import TT.Proofs.C10ParseTy TT.Proofs.C10LexTy TT.Proofs.C10Oracle.
+Require Import TT.Proofs.C10ParseTy TT.Proofs.C10LexTy TT.Proofs.C10Oracle TT.Proofs.C10ParseEx TT.Proofs.C10LexEx TT.Proofs.C10Depth.
 Import ListNotations.
 
 (* ---- per key: the shape of the schema agrees with the shape of the declaration ---- *)
@@ -46,6 +46,50 @@ Theorem C10_plain_text_denotes : forall (m : mapping) (t : tstruct),
   map_ok m = true -> dom t = true -> nest (ts_ty_of m t) < TYF ->
   parse_ty (plain m t) = Some (ts_ty_of m t) /\ parse_ty (ziface m t) = Some (ts_ty_of m t).
 Proof. intros m t Hm Hd Hn. rewrite (ziface_plain m t). split; apply parse_plain; assumption. Qed.
+
+(* ---- string level, Zod side: the text ZodSchemaBuilder prints (build_schema = build_param_schema with
+   validator None, also in record-key position) lexes and parses to the tree [zex_of m t key], for EVERY
+   in-domain type whose call / literal nesting fits the expression parser's budget of 64 ---- *)
+Theorem C10_builder_text_denotes : forall (m : mapping) (t : tstruct) (key : bool),
+  map_ok m = true -> dom t = true -> enest (zex_of m t key) < 64 ->
+  parse_ex (zbuild m t key) = Some (zex_of m t key).
+Proof. intros m t key Hm Hd Hn. apply parse_build; assumption. Qed.
+
+(* ---- the shape theorem at string level (formerly C10_shapes_full_statement): both printed texts are
+   read back by the specification lexer and parser and the shapes they denote agree ---- *)
+Theorem C10_shapes : forall (m : mapping) (t : tstruct),
+  map_ok m = true -> dom t = true -> nest (ts_ty_of m t) < TYF -> enest (zex_of m t false) < 64 ->
+  has_set_t t = false -> has_res_t t = false -> union_under_seq t = false ->
+  exists a b, parse_ex (build_schema m t) = Some a /\ parse_ty (plain m t) = Some b /\
+              shape_agree (zshape a) (tshape b) = true.
+Proof.
+  intros m t Hm Hd Hn He Hs Hr Hu. exists (zex_of m t false), (ts_ty_of m t).
+  split; [apply parse_build; assumption|]. split; [apply parse_plain; assumption|].
+  apply type_agree; [exact Hm|]. repeat split; assumption.
+Qed.
+(* one premise instead of the two parser budgets: TypeStructure depth below 31 *)
+Theorem C10_shapes_depth : forall (m : mapping) (t : tstruct),
+  map_ok m = true -> dom t = true -> tsdepth t < 31 ->
+  has_set_t t = false -> has_res_t t = false -> union_under_seq t = false ->
+  exists a b, parse_ex (build_schema m t) = Some a /\ parse_ty (plain m t) = Some b /\
+              shape_agree (zshape a) (tshape b) = true.
+Proof.
+  intros m t Hm Hd Hdep Hs Hr Hu. destruct (budgets m t false Hm Hdep) as [H1 H2]. apply C10_shapes; assumption.
+Qed.
+(* the JSON clauses read from the printed parameter schema *)
+Theorem C10_json : forall (m : mapping) (t : tstruct),
+  map_ok m = true -> dom t = true -> enest (zex_of m t false) < 64 -> has_set_t t = false -> has_res_t t = false ->
+  exists a, parse_ex (build_param_schema m t) = Some a /\ nonjson (zshape a) = [].
+Proof.
+  intros m t Hm Hd He Hs Hr. exists (zex_of m t false). split; [apply parse_build; assumption|]. apply type_json; assumption.
+Qed.
+Theorem C10_accept : forall (m : mapping) (t : tstruct),
+  map_ok m = true -> clean t -> has_opt_t t = false -> nest (ts_ty_of m t) < TYF -> enest (zex_of m t false) < 64 ->
+  exists a b, parse_ex (build_param_schema m t) = Some a /\ parse_ty (plain m t) = Some b /\ rejects (zshape a) (tshape b) = [].
+Proof.
+  intros m t Hm Hc Ho Hn He. pose proof Hc as [Hd _]. exists (zex_of m t false), (ts_ty_of m t).
+  split; [apply parse_build; assumption|]. split; [apply parse_plain; assumption|]. apply type_accept; assumption.
+Qed.
 
 (* the shape statement with the declaration side read from the printed text *)
 Theorem C10_shapes_text_partial : forall (m : mapping) (t : tstruct),
@@ -132,14 +176,6 @@ Theorem C10_denotation_sweep :
 Proof. exact denotation_sweep. Qed.
 
 (* ---- full statements, not asserted ---- *)
-(* string level: what C10_shapes_partial would say with the parse-back proved for all types *)
-(* remaining gap: parse_ex (build_schema m t) = Some (zex_of m t false) for all types (the Zod side of
-   the string level; today: C10_denotation_sweep to depth 2 and the per-case run-time check) *)
-Definition C10_shapes_full_statement : Prop := forall (m : mapping) (t : tstruct),
-  map_ok m = true -> dom t = true -> nest (ts_ty_of m t) < TYF ->
-  has_set_t t = false -> has_res_t t = false -> union_under_seq t = false ->
-  exists a b, parse_ex (build_schema m t) = Some a /\ parse_ty (plain m t) = Some b /\
-              shape_agree (zshape a) (tshape b) = true.
 (* module level: the oracle finds nothing on the model's two modules *)
 Definition C10_modules_full_statement : Prop := forall p : proj,
   proj_dom p = true ->
@@ -148,6 +184,10 @@ Definition C10_modules_full_statement : Prop := forall p : proj,
   v_tags (compare_modules (plain_items p) (zod_items p)) = [].
 
 (* ---- non-vacuity ---- *)
+Example C10_ex_budgets : let t := TMap (TPrim (L "number")) (TTuple [TPrim (L "string"); TArr (TCustom (L "User"))]) in
+  nest (ts_ty_of [] t) < TYF /\ enest (zex_of [] t false) < 64 /\
+  parse_ex (build_schema [] t) = Some (zex_of [] t false).
+Proof. cbv zeta. split; [vm_compute; repeat constructor|]. split; [vm_compute; repeat constructor|vm_compute; reflexivity]. Qed.
 Example C10_ex_text : nest (ts_ty_of [] (TMap (TPrim (L "number")) (TTuple [TPrim (L "string"); TArr (TOpt (TCustom (L "User")))]))) < TYF /\
   parse_ty (plain [] (TArr (TOpt (TCustom (L "User"))))) = Some (TyUnion [TyRef [L "User"] []; TyArr (TyRef [L "null"] [])]).
 Proof. split; [vm_compute; repeat constructor|vm_compute; reflexivity]. Qed.
@@ -168,6 +208,11 @@ Print Assumptions C10_shapes_partial.
 Print Assumptions C10_shapes_field_partial.
 Print Assumptions C10_shapes_param_partial.
 Print Assumptions C10_plain_text_denotes.
+Print Assumptions C10_builder_text_denotes.
+Print Assumptions C10_shapes.
+Print Assumptions C10_shapes_depth.
+Print Assumptions C10_json.
+Print Assumptions C10_accept.
 Print Assumptions C10_shapes_text_partial.
 Print Assumptions C10_oracle_exact.
 Print Assumptions C10_shapes_set_refuted.
